@@ -23,7 +23,7 @@ CONSTANTS Configs,      \* set of <<InitialDelay, MaxDelay, MaxPendingEvents (0 
           AdvIdleOnly,  \* TRUE: the clock moves only when nothing else can (liveness configurations)
           UseMonitor,   \* FALSE: the monitor is switched off (liveness configurations)
           CloseFix,     \* FALSE: Close as written (holds the lock across wg.Wait); TRUE: repaired
-          Variant       \* "ok" | "capeq" | "skipfire" | "close2early" | "alwaysdouble" | "inputctx" | "bfkept" | "wgLeakOnRejectedRun": known-bad variants (non-vacuity)
+          Variant       \* "ok" | "capeq" | "skipfire" | "close2early" | "alwaysdouble" | "inputctx" | "bfkept" | "wgLeakOnRejectedRun" | "capnoreturn": known-bad variants (non-vacuity)
 
 Gs == 1..Len(AddProgs)
 Ks == 1..NClosers
@@ -77,7 +77,7 @@ AtRest == /\ \A g \in Gs : apc[g] # "body" /\ (apc[g] = "called" => lock # 0)
                             /\ (cpc[k] = "called" => CloseFix /\ lock # 0) /\ (cpc[k] = "beforeLock" => lock # 0)
 (* the harness observes at rest; in the model the observation is taken as soon as it is informative *)
 QuiescentEv == [ev |-> "quiescent", recv |-> (cons = "ready")]
-StuckEv == [ev |-> "stuck", n |-> InFlight, run |-> (cancelled \/ closeCh) /\ rpc # "done"]
+StuckEv == [ev |-> "stuck", n |-> InFlight, run |-> (cancelled \/ closeCh) /\ rpc # "done", clock |-> FALSE]
 ObsPending == /\ UseMonitor /\ AtRest
               /\ \/ InFlight = 0 /\ CNext(c, QuiescentEv) # c
                  \/ (InFlight > 0 \/ ((cancelled \/ closeCh) /\ rpc # "done")) /\ CNext(c, StuckEv) # c
@@ -130,8 +130,13 @@ RunInput == /\ rpc = "input" /\ lock = 0 /\ rpc' = "top"
             /\ IF ~hasTimer
                  THEN /\ hasTimer' = TRUE /\ tstate' = "armed" /\ deadline' = now + I
                       /\ sigS' = FireSigIn /\ wg' = FireWg /\ pendSet' = {} /\ UNCHANGED <<curDur, bf>>
-                 ELSE IF CapReached
+                 ELSE IF CapReached /\ Variant # "capnoreturn"
                    THEN /\ sigS' = FireSigIn /\ wg' = FireWg /\ pendSet' = {} /\ UNCHANGED <<hasTimer, tstate, deadline, curDur, bf>>
+                 ELSE IF CapReached
+                   (* known-bad "capnoreturn": the Add that reaches the cap fires AND doubles/restarts the window *)
+                   THEN /\ sigS' = FireSigIn /\ wg' = FireWg /\ pendSet' = {}
+                        /\ curDur' = (IF curDur < M THEN Min2(2 * curDur, M) ELSE curDur) /\ UNCHANGED bf
+                        /\ tstate' = "armed" /\ deadline' = now + curDur' /\ UNCHANGED hasTimer
                    ELSE /\ IF Variant = "bfkept"
                              (* known-bad: the factor is never put back to 1 (see RunTimer), the duration restarts from it *)
                              THEN IF curDur < M THEN bf' = 2 * bf /\ curDur' = Min2(I * bf', M) ELSE UNCHANGED <<curDur, bf>>
